@@ -25,12 +25,12 @@ fn models(tier: Tier) -> Vec<Model> {
             v.extend(gen::m8(0).into_iter().step_by(7));
         }
         Tier::Thorough => {
-            v.extend(gen::m1(1).into_iter().step_by(53));
-            v.extend(gen::m2(1).into_iter().step_by(4001));
-            v.extend(gen::m3(1).into_iter().step_by(101));
-            v.extend(gen::m4(1).into_iter().step_by(43));
-            v.extend(gen::m5(1).into_iter().step_by(17));
-            v.extend(gen::m8(1).into_iter().step_by(3));
+            v.extend(gen::m1(1).into_iter().step_by(17));
+            v.extend(gen::m2(1).into_iter().step_by(997));
+            v.extend(gen::m3(1).into_iter().step_by(31));
+            v.extend(gen::m4(1).into_iter().step_by(13));
+            v.extend(gen::m5(1).into_iter().step_by(5));
+            v.extend(gen::m8(1).into_iter().step_by(1));
         }
     }
     // conflict-rich models with bystanders: unconstrained variables never appear in a conflict, so
